@@ -94,8 +94,11 @@ def st_matching(draw, tier):
     tol = draw(Z.st_tolerances())
     if spec["family"] == "traced" and tier == "quick":
         tol = [1e-6, 1e-10]
-    return {"kind": "matching", "eos": spec, "tol": tol, "solver": solver,
+    case = {"kind": "matching", "eos": spec, "tol": tol, "solver": solver,
             "vclass": draw(st.sampled_from(VCLASSES)), "u": draw(st.floats(0.0, 1.0))}
+    if draw(st.integers(0, 3)) == 0:
+        case["decoy"] = {"alN": round(10.0 ** draw(st.floats(-2.0, -0.5)), 4), "psiN": round(draw(st.floats(0.6, 0.95)), 3)}
+    return case
 
 
 @st.composite
@@ -184,6 +187,23 @@ def tn_bound(eos, Tn, vw, vp, vm, Tp, Tm, branch, rtol, atol):
     return R.shock_backward_bound(eos, Tn, vw, vp, vm, Tp, Tm, branch, rtol, atol, K)
 
 
+def _run_decoy(case, Tn, vw, rtol, atol):
+    """Another Hydrodynamics object for a different equation of state, same nucleation temperature
+    and wall velocity, used in the same process just before the object under test (as in a
+    parameter scan): results must not depend on what other objects computed."""
+    d = case.get("decoy")
+    if not d:
+        return
+    try:
+        th2, _ = Z.build({"family": "template", "Tn": Tn, "alN": float(d["alN"]), "psiN": float(d["psiN"]),
+                            "cs2": 0.26, "cb2": 0.23, "g": 1.0})
+        h2 = Z.build_hydro(th2, rtol, atol)
+        h2.findMatching(vw)
+        h2.findHydroBoundaries(vw)
+    except Exception:  # noqa: BLE001  (the decoy's own outcome is irrelevant)
+        pass
+
+
 def check_matching(case, v: Verdict):
     from WallGo import WallGoError
 
@@ -208,6 +228,9 @@ def check_matching(case, v: Verdict):
     vmin, cb, vJ = _landmarks(th, meta, hyd, solver)
     vw = Z.velocity(case["vclass"], case["u"], vmin, cb, vJ)
     v.info.update(vw=vw, vMin=vmin, cb=cb, vJ=vJ, alN=meta["alN"])
+    if case.get("decoy") and solver == "general":
+        v.label("decoy-object-first")
+        _run_decoy(case, Tn, vw, rtol, atol)
     try:
         res = hyd.findMatching(vw)
     except WallGoError as exc:
